@@ -31,6 +31,32 @@ def patterns_around(rng, m):
     return out
 
 
+def atoms_of(g):
+    if g[0] in ('MultiPoint', 'MultiLineString', 'MultiPolygon', 'GeometryCollection'):
+        out = []
+        for e in (g[1] or []):
+            out += atoms_of(e if isinstance(e, tuple) else ({'MultiPoint': 'Point', 'MultiLineString': 'LineString', 'MultiPolygon': 'Polygon'}[g[0]], e))
+        return out
+    return [g]
+
+
+def primer_near(rng, atom):
+    """WKT of a small valid geometry placed at ONE atom: a box around its envelope, a diagonal of it, or a box overlapping half of it"""
+    pts = G.all_points(atom)
+    if not pts: return None
+    x0, x1 = min(p[0] for p in pts), max(p[0] for p in pts); y0, y1 = min(p[1] for p in pts), max(p[1] for p in pts)
+    w, hgt = (x1 - x0) or 1, (y1 - y0) or 1
+    k = rng.random()
+    f = lambda v: repr(float(v)) if isinstance(v, float) else str(v)
+    if k < 0.4:
+        a, b, c, d = x0 - w / 4, y0 - hgt / 4, x1 + w / 4, y1 + hgt / 4
+    elif k < 0.7:
+        a, b, c, d = x0 + w / 2, y0 - hgt / 4, x1 + w / 2, y1 + hgt / 4
+    else:
+        return 'LINESTRING (%s %s, %s %s)' % (f(x0 - w / 4), f(y0 - hgt / 4), f(x1 + w / 4), f(y1 + hgt / 4))
+    return 'POLYGON ((%s %s, %s %s, %s %s, %s %s, %s %s))' % (f(a), f(b), f(c), f(b), f(c), f(d), f(a), f(d), f(a), f(b))
+
+
 def gen_pair(rng):
     R = rng.choice([4, 8, 20, 60])
     A = G.gen_geom(rng, R)
@@ -442,7 +468,27 @@ def run(ctx):
     for i, o in enumerate(out1):
         d = parse_out(o)
         pats.append(patterns_around(rng, d['R']) if 'R' in d and len(d['R']) == 9 else [])
-    lines2 = [l + ','.join(p) for l, p in zip(lines, pats)]
+    # primers: for part of the cases the prepared geometries first answer a predicate against OTHER geometries placed at single
+    # elements of A and of B (so that their envelopes miss the remaining elements) before they are asked about the pair itself
+    primers = {}
+    prng = random.Random(ctx.seed + 4242)
+    for i, (kind, a, b, dA, dB) in enumerate(cases):
+        if kind == 'corpus' or prng.random() > 0.45:
+            continue
+        ps = []
+        for w in (a, b):
+            try:
+                g = G.from_wkt(w)
+            except Exception:
+                continue
+            ats = list(G.atoms(g))
+            prng.shuffle(ats)
+            for at in ats[:2]:
+                pr = primer_near(prng, at)
+                if pr: ps.append(pr)
+        if ps:
+            primers[i] = ps
+    lines2 = [l + ','.join(p) + (('|' + ';'.join(primers[i])) if i in primers else '') for i, (l, p) in enumerate(zip(lines, pats))]
     out = ctx.run_lines([hexe], lines2, timeout=900)
     dist = {'kind': {}, 'matrix': {}, 'dims': {}, 'invalid': 0}
     mlines, midx = [], []
@@ -472,6 +518,8 @@ def run(ctx):
         bad = []
         if any(m[k][0] != m[k][1] for k in NAMES):
             ctx.broken.append(dict(kind='correspondence', name='generated IM unit vs specification (extracted)', detail='%s dims %d %d: %s' % (R, dA, dB, mo)))
+        if 'prime' in d and not d['prime'].startswith('0/'):
+            bad.append('a prepared geometry reused for other geometries first: %s of its answers on the primers differ from the unprepared calls' % d['prime'])
         if d['RT'] != m['T']:
             bad.append('relate(B,A)=%s is not the transpose %s of relate(A,B)=%s' % (d['RT'], m['T'], R))
         if d['PR'] != R:
